@@ -87,7 +87,7 @@ def run_verus(path, seed=0, rlimit=None, extra=(), timeout=1800, multiple_errors
                 continue
             if any(k in msg for k in RLIMIT_MSG):
                 r.rlimit.append(rec)
-            elif any(k in msg for k in VERIFY_MSG):
+            elif any(k in msg for k in VERIFY_MSG) and not any(k in msg for k in ('cannot be', 'unless', 'not supported', 'unsupported', 'must have')):
                 r.errors.append(rec)
             else:
                 r.tool_errors.append(rec)
